@@ -336,7 +336,7 @@ func checkC05(c *Ctx) error {
 		return err
 	}
 	var units []*probe.Unit
-	n := c.Pick(400, 12000)
+	n := c.Pick(400, 6000)
 	for i := 0; i < n; i++ {
 		r := rand.New(rand.NewSource(c.Seed*1000003 + int64(i)))
 		o := gen.DefaultOpts()
